@@ -11,11 +11,11 @@ namespace Cjet.Daemon.C02
 open Cjet Cjet.Json Cjet.Daemon
 
 structure HandlerOK (req : Json) (x : Ctx) (r : Ctx × Option Json) : Prop where
-  frame : Frame obsNotif x r.1
+  frame : Frame IsNotif x r.1
   resp : FromReq req r.2
 
 /-- a record built from pieces of `y` with a new state that keeps the routing tables -/
-theorem Frame.mk' {P : Obs → Bool} {x : Ctx} (y : Ctx) (st : State) (sends : List Bool) (idx rf : Bool)
+theorem Frame.mk' {P : Obs → Prop} {x : Ctx} (y : Ctx) (st : State) (sends : List Bool) (idx rf : Bool)
     (h : Frame P x y) (hr : routesMap st.peers = routesMap y.st.peers) :
     Frame P x { st := st, out := y.out, sends := sends, indexFull := idx, routeFull := rf } :=
   ⟨h.out, hr.trans h.routes⟩
@@ -63,7 +63,7 @@ theorem getCredentials_err {req : Json} {r : Option Json} (h : getCredentials re
 
 /-! ## element.c -/
 
-theorem removeElement_frame (x : Ctx) (e : Element) : Frame obsNotif x (removeElement x e) := by
+theorem removeElement_frame (x : Ctx) (e : Element) : Frame IsNotif x (removeElement x e) := by
   unfold removeElement
   exact (notifyFetchers_frame x e "remove").trans
     (Frame.setSt _ _ (routesMap_updatePeer _ _ _ (by intro q; exact ⟨rfl, rfl⟩)))
@@ -106,7 +106,7 @@ theorem addElement_ok (cfg : Config) (x : Ctx) (p : Peer) (req : Json) :
 /-! ## fetch.c -/
 
 theorem offerAllElements_frame (cfg : Config) (x : Ctx) (fp : Peer) (f : Fetch) :
-    Frame obsNotif x (offerAllElements cfg x fp f) := by
+    Frame IsNotif x (offerAllElements cfg x fp f) := by
   unfold offerAllElements
   apply Frame.foldl; intro x owner _
   apply Frame.foldl; intro x e0 _
